@@ -142,7 +142,10 @@ def check(ctx):
         'themselves; derivative(x) is linear and maps domain -> range (R5).'
         '  R3: the ufunc derivative table equals the symbolic derivatives '
         'of the named elementary functions.  R4: closed forms of '
-        'PowerOperator.',
+        'PowerOperator.  R6: ProductSpaceOperator / BroadcastOperator / '
+        'ReductionOperator differentiate every block at the component of '
+        'the point that the block acts on (block layouts incl. off-diagonal '
+        'and unsorted ones), keep the block positions and the spaces.',
         ['CPython ast', 'vector-space axioms of the free algebra; '
          'differentiation rules of elementary functions'],
         ['PointwiseNorm.derivative (array masking code)',
